@@ -46,7 +46,8 @@ NEGATIVE = [("ATEM_dev_WaveformAliased.cfg", {"WriteThrough", "EditIsLocal"}),
             ("DC_dev_RelinkKeepsCachedPartner.cfg", {"LinkSticks", "BothIds", "SharedEqual"}),
             ("AFEM_dev_RelinkLeavesSharedDictionary.cfg", {"WriteThrough"}),
             ("DC_dev_CopyFailsOnGroupedIdData.cfg", {"RefusedIsNoop", "CopyCopiesPartner"}),
-            ("AFEM_dev_GroupCopyDuplicatesPair.cfg", {"GroupCopyOnce"})]
+            ("AFEM_dev_GroupCopyDuplicatesPair.cfg", {"GroupCopyOnce"}),
+            ("LLFEM_dev_EmptyPartnerBreaksLoopCopy.cfg", {"RefusedIsNoop", "CopyCopiesPartner"})]
 
 SIGNATURES = {
     "WaveformAliased": "copy-shares-waveform-dict-with-source",
@@ -59,6 +60,7 @@ SIGNATURES = {
     "RelinkLeavesSharedDictionary": "former-partner-live-metadata-follows-the-new-pair",
     "CopyFailsOnGroupedIdData": "copy-fails-when-a-property-group-holds-the-linking-data",
     "GroupCopyDuplicatesPair": "group-copy-duplicates-the-linked-pair",
+    "EmptyPartnerBreaksLoopCopy": "copy-of-loops-whose-receivers-have-no-station-fails",
 }
 
 CLASSES = {
